@@ -250,6 +250,11 @@ func (l *queryLog) Add(params *AddParams) {
 	l.bufferLock.Lock()
 	defer l.bufferLock.Unlock()
 
+	// Take the time under the lock, so that the order of the records in the
+	// buffer, and in the file it is flushed to, is the order of their times:
+	// the search and its older_than paging rely on that.
+	entry.Time = time.Now()
+
 	l.buffer.Push(entry)
 
 	if !l.flushPending && fileIsEnabled && l.buffer.Len() >= memSize {
